@@ -1,5 +1,5 @@
 """C14 (ILP part) — the goodput objective: soundness on every solution, completeness refuted (F11-ii, F11-iii,
-ILP-iv), real solver vs exhaustive search of the specification (evaluated in Coq) on tiny instances."""
+F22), real solver vs exhaustive search of the specification (evaluated in Coq) on tiny instances."""
 import core
 from core import gz
 from props import c10_ilp as common
@@ -73,20 +73,29 @@ def fits(wd, strat):
 
 
 def sig_three_way(w):
-    """F11-ii: three decided tasks fit one worker whose capacity their cheapest demands exceed together"""
+    """F11-ii: at least three decided tasks, and some worker on which two of them fit separately but (with their cheapest
+    demands) not together — plus the demand of the third if it fits that worker too: the third task's capacity row for
+    that worker charges the two together as soon as both overlap it in time, wherever the third task runs"""
     flat = [wd for pool in w["pools"] for wd in pool]
+    if len(w["tasks"]) < 3:
+        return False
     for wd in flat:
         cap = sum(q for r, q in wd["res"] if r == 0)
         dem = sorted(min(s[1][0][1] for s in t["strats"] if fits(wd, s)) for t in w["tasks"]
                      if any(fits(wd, s) for s in t["strats"]))
+        if len(dem) >= 2 and dem[0] + dem[1] > cap:
+            return True
         if len(dem) >= 3 and sum(dem[:3]) > cap:
             return True
     return False
 
 
 def sig_dead(w):
-    """ILP-iv: with deadlines enforced, some decided task cannot even be given a start value:
-    deadline < max(now + 1, release), or (whole graphs) deadline < earliest end of a co-decided parent + 1"""
+    """F22: with deadlines enforced, some decided task cannot even be given a start value: deadline < max(now + 1,
+    release) — or, through the precedence row that also binds unplaced tasks, deadline < the earliest start of a
+    co-decided parent.  (The weaker situation `deadline(child) < earliest end of the parent + 1` — formerly ILP-iv',
+    proposed as F22b — only forbids placing the parent of a child that cannot be placed anyway; the graph's reward
+    needs that child, so no goodput is lost and it is not a finding: it is NOT part of the signature.)"""
     lb = {}
     tds = {t["id"]: t for t in w["tasks"]}
     for t in w["tasks"]:
@@ -95,11 +104,8 @@ def sig_dead(w):
         lb[t["id"]] = max(w["now"] + 1, t["release"])
     for g in w["graphs"]:
         for p, c in g["edges"]:
-            if p in lb and c in lb:
-                # the child's start variable is bounded by the parent's start (+ runtime + 1 if the parent is placed)
-                # while its own deadline row holds even when it is unplaced
-                if tds[c]["deadline"] < lb[p] + min(s[0] for s in tds[p]["strats"]) + 1:
-                    return True
+            if p in lb and c in lb and tds[c]["deadline"] < lb[p]:
+                return True
     return any(tds[i]["deadline"] < lb[i] for i in lb)
 
 
@@ -108,19 +114,22 @@ def replay_known(ctx):
                         "(ilp_scheduler.py:1270-1363)"),
              ("F11-iii", "running task charged its full runtime from now: a task that fits after it is left unplaced "
                          "(ilp_scheduler.py:172-194,1397-1403)"),
-             ("ILP-iv", "one task with deadline < now + 1 makes the model infeasible: nothing is placed in that invocation "
+             ("F22", "one task with deadline < now + 1 makes the model infeasible: nothing is placed in that invocation "
                         "(ilp_scheduler.py:200-207,318-340,760-774)")]
     import json
     import os
     d = os.path.join(core.ROOT, "corpus", "C14_ilp")
     for fid, what in specs:
+        still = False
         for f in sorted(os.listdir(d)):
             if f.startswith(fid + "_"):
                 c = json.load(open(os.path.join(d, f)))
                 r = common.run_worlds([c["world"]], probe=False)[0]
                 got = int(round(r["objval"])) if r.get("status") == 2 else sum(1 for t, dsc in r.get("plan", []) if dsc)
                 if "error" not in r and got < c["expected_goodput"]:
-                    ctx.known(fid, what)
+                    still = True
+        if still:
+            ctx.known(fid, what)
 
 
 def run(ctx):
@@ -166,7 +175,7 @@ def run(ctx):
     ctx.rules.append("S-opt: tiny instances (<= 3 offered tasks quick / 4 thorough, <= 2 workers, <= 2 strategies, deadlines <= now + 10, "
                      "sometimes a two-task chain offered as a whole or one running task), Gurobi (the planner's own MIPGap 0.1) vs `best_goodput` "
                      "(exhaustive search of feasible_clb plans in Coq); equality required unless the input matches the signature of "
-                     "F11-ii / F11-iii / ILP-iv, where only solver <= exhaustive is required")
+                     "F11-ii / F11-iii / F22, where only solver <= exhaustive is required")
     try:
         mism = ctx.model_stream("S-opt", HEADER, "instance * Z", "(fun p => I (best_goodput (fst p) (snd p)))", cases, shard=3)
         below = 0
